@@ -415,7 +415,7 @@ def patch(rng, layout, units, tus):
                             tgt = rnd_uint(rng, 16)
                         set_ref(a, tgt, fmt, asz, ver)
                     elif f == 0x20:
-                        if sigs5 and rng.random() < 0.3:
+                        if sigs5 and rng.random() < 0.5:       # DWARF 5 type units of .debug_info (ref_sig8_debug_info_v5)
                             a['op'][1] = rng.choice(sigs5)
                         elif sigs and rng.random() < 0.85:
                             a['op'][1] = rng.choice(sigs)
@@ -510,7 +510,7 @@ def die_canon(d):
             None if p is None else p.offset]
 
 
-def impl_unit(cu, is_tu, cap):
+def impl_unit(cu, is_tu, cap, sig_hist=None):
     hdr = [cu.cu_offset, cu.cu_die_offset, cu.size, cu.dwarf_format(), canon(cu.header)]
     dies, canons = [], []
     try:
@@ -541,6 +541,8 @@ def impl_unit(cu, is_tu, cap):
                     r = d.get_DIE_from_attribute(name)
                     return [r.cu.cu_offset, r.offset, r.abbrev_code]
                 refs.append(run_impl(f))
+                if a.form == 'DW_FORM_ref_sig8' and sig_hist is not None:
+                    sig_hist.append(refs[-1])       # the history the signature-map cache of this object sees
     res['refs'] = refs
     return res
 
@@ -588,15 +590,20 @@ def probe_random_access_parents(le, dasz, info, abbrev, types, secs, out):
 def impl_world(le, dasz, info, abbrev, types, secs):
     di = mk_dwarfinfo(le, dasz, info, abbrev, types, secs)
     out = {}
+    sig_hist = []
     for key, it, data, is_tu in (('info', di.iter_CUs, info, False), ('types', di.iter_TUs, types, True)):
         units, end = [], None
         cap = 2 * len(data or b'') + 8
         try:
             for cu in it():
-                units.append(impl_unit(cu, is_tu, cap))
+                units.append(impl_unit(cu, is_tu, cap, sig_hist))
         except Exception as e:      # noqa: BLE001
             end = classify_exception(e)
         out[key] = {'units': units, 'end': end}
+    # the signature lookups of this one object in query order, and whether `_type_units_by_sig` has been published:
+    # compared with Model/SigCache run by the driver (Props/C04 sig8_history_independent, sig8_published_iff)
+    out['sig_hist'] = sig_hist
+    out['sig_published'] = di._type_units_by_sig is not None
     return out
 
 
@@ -732,6 +739,10 @@ def check_case(ctx, stream, rq, r):
     if any_failed(impl) or any_failed(model):
         out.count(stream + ':reduced-compare')
         impl, model = reduced(impl), reduced(model)
+    if 'sig_hist' in impl:
+        out.count(stream + ':sig-cache:lookups', len(impl['sig_hist']))
+        out.count(stream + ':sig-cache:repeated-or-later-lookups', max(0, len(impl['sig_hist']) - 1))
+        out.count(stream + ':sig-cache:' + ('published' if impl.get('sig_published') else 'not-published'))
     if impl != model:
         out.violation('correspondence', stream, rq, diff=first_diff(impl, model))
 
